@@ -1,7 +1,7 @@
 (** * C03: entry points for the correspondence check (float instance). *)
 From Coq Require Import ZArith List Floats.
 From Celer Require Import Base.Num Base.NumF Base.Vec3 C12.Solver C12.Surfaces C12.Transforms
-  C03.LogicWalk C03.NavModel C03.UnitWalk C03.UnitAbs.
+  C03.LogicWalk C03.NavModel C03.UnitWalk C03.UnitWalkBg C03.UnitAbs.
 Import ListNotations.
 
 Definition ofv (v : vec3 float) : list float := [vx v; vy v; vz v].
@@ -23,4 +23,4 @@ Definition run_locate (g : geometry float) (pts : list (vec3 float)) :=
   map (fun p => locate g p) pts.
 
 (** the unit-level loop of UnitWalk.v on a concrete single-unit geometry *)
-Definition run_unit_trace (g : geometry float) (p d : vec3 float) := unit_trace g p d.
+Definition run_unit_trace (tol : tolerance float) (g : geometry float) (p d : vec3 float) := unit_trace tol g p d.
